@@ -149,7 +149,9 @@ func c14ReplaceCell(t, old, val string) string {
 
 // c14D: the origin term of v in fn's frame, see c14Norm.
 func c14D(r *Run, fn *ssa.Function, v ssa.Value) string {
-	return c14Norm(r, fn, r.D.D(v))
+	// reads of a local that is assigned more than once are read where they stand: the assignment
+	// that reaches them (rules_t8c14.go)
+	return c14Norm(r, fn, c14SubstLoads(r, v, r.D.D(v), 0))
 }
 
 // c14CapturedAt: v, a value inside the function literal started by the go statement g, is a read of
@@ -176,7 +178,9 @@ func c14CapturedAt(g *ssa.Go, v ssa.Value) ssa.Value {
 		if !ok {
 			return nil
 		}
-		return c14CellValue(a)
+		// one value throughout, or the assignment that reaches the making of the literal and is
+		// followed by none (rules_t8c14.go)
+		return c14CellAt(a, mc)
 	}
 	return nil
 }
